@@ -645,6 +645,21 @@ func holdReadLock(path string) (release func(), err error) {
 	return func() { _ = rows.Close(); _ = tx.Rollback(); _ = db.Close() }, nil
 }
 
+// holdExclusiveLock opens a second connection and takes the database's exclusive lock (every statement of the service,
+// reads included, fails with "database is locked" after its busy timeout) until release is called.
+func holdExclusiveLock(path string) (release func(), err error) {
+	db, err := sqlx.Open("sqlite3", "file:"+path)
+	if err != nil {
+		return nil, err
+	}
+	db.SetMaxOpenConns(1)
+	if _, err := db.Exec("BEGIN EXCLUSIVE"); err != nil {
+		_ = db.Close()
+		return nil, err
+	}
+	return func() { _, _ = db.Exec("ROLLBACK"); _ = db.Close() }, nil
+}
+
 func pickOp(rng *rand.Rand) string {
 	tot := 0
 	for _, o := range opTable {
@@ -669,6 +684,9 @@ func (s *seq) run(rng *rand.Rand, n int) {
 		}
 		if i == 6 && s.lockSeq {
 			kind = "revoke-under-reader-lock"
+		}
+		if i == 9 && s.lockSeq {
+			kind = "revoke-under-exclusive-lock"
 		}
 		switch kind {
 		case "create":
@@ -779,6 +797,27 @@ func (s *seq) run(rng *rand.Rand, n int) {
 			_, _ = e.st.DB.Exec(`DROP TRIGGER IF EXISTS verif_tok_del`)
 			s.r.Count("revokes_with_refused_delete", 1)
 			s.r.Count(fmt.Sprintf("revokes_with_refused_delete_status_%dxx", code/100), 1)
+		case "revoke-under-exclusive-lock":
+			// another process holds the database's exclusive lock while the revocation is attempted: no statement of
+			// the service succeeds. Whatever the API answers must be truthful: 2xx => the token is revoked.
+			if s.nops["revoke-under-exclusive-lock"] >= 1 {
+				continue // costs a busy timeout (seconds): at most once per sequence
+			}
+			t, ti, ok := m.pick(rng, true)
+			if !ok {
+				continue
+			}
+			s.op(kind, "revoke #%d while a second connection holds the exclusive lock", ti)
+			s.subj = t
+			release, err := holdExclusiveLock(s.e.st.Path)
+			if err != nil {
+				s.r.Count("exclusive_lock_not_taken", 1)
+				continue
+			}
+			code := s.revoke(t, rig.AdminToken)
+			release()
+			s.r.Count("revokes_under_exclusive_lock", 1)
+			s.r.Count(fmt.Sprintf("revokes_under_exclusive_lock_status_%dxx", code/100), 1)
 		case "revoke-revoked":
 			t, ti, ok := m.pick(rng, false)
 			if !ok {
@@ -896,7 +935,7 @@ func (s *seq) run(rng *rand.Rand, n int) {
 }
 
 func body(r *ev.Run) {
-	r.Rule("seeded operation sequences of length 20..200 over {create (admin), create with a user token, revoke existing / already revoked / never-issued (random, near-miss and SQL-wildcard values) / the admin token itself, revoke with a user token (incl. self-revocation), revoke while SQLite refuses the COMMIT of the deletion (deferred foreign-key reference), aborts the DELETE statement (trigger) or while a second connection holds a read lock, create while SQLite aborts the INSERT (trigger), authenticate over TCP, websocket connect with valid / revoked / never-issued / empty / admin token, restart}; the set model follows the API's own answers (2xx create = issued, 2xx revoke = revoked). After EVERY operation every token ever issued, the admin token and the never-issued targets are authenticated on GET /api/v1/access (status, own value, isAdmin) and a rotating sample on GET /api/v1/chain/tip/longest; websocket handshakes are sampled. evaluations = sequences; distinct = distinct operation-kind strings; non-trivial = sequences with at least one create, one accepted revocation of an existing token and one restart or websocket probe.")
+	r.Rule("seeded operation sequences of length 20..200 over {create (admin), create with a user token, revoke existing / already revoked / never-issued (random, near-miss and SQL-wildcard values) / the admin token itself, revoke with a user token (incl. self-revocation), revoke while SQLite refuses the COMMIT of the deletion (deferred foreign-key reference), aborts the DELETE statement (trigger) or while a second connection holds a read lock or the exclusive lock, create while SQLite aborts the INSERT (trigger), authenticate over TCP, websocket connect with valid / revoked / never-issued / empty / admin token, restart}; the set model follows the API's own answers (2xx create = issued, 2xx revoke = revoked). After EVERY operation every token ever issued, the admin token and the never-issued targets are authenticated on GET /api/v1/access (status, own value, isAdmin) and a rotating sample on GET /api/v1/chain/tip/longest; websocket handshakes are sampled. evaluations = sequences; distinct = distinct operation-kind strings; non-trivial = sequences with at least one create, one accepted revocation of an existing token and one restart or websocket probe.")
 	r.Assume(
 		"authentication is enabled (use_auth=true); SQLite token repository only",
 		"restart = stop listeners, close the handle, database.Init on the same file, new services/engine/websocket node (no process kill: that is C05's business)",
